@@ -39,7 +39,7 @@ ASSUMPTIONS = [
     "and k*dr may fall on different sides); their count is reported",
     "force rows whose numerical-fallback stencil (h=1e-6) crosses a piecewise boundary are not compared",
 ]
-REQUIRED = {"special:int_plateau": 4, "special:root_on_grid": 8, "special:decay_tail": 8, "special:growth": 4, "single_row_table": 2, "repeated_pair_in_list": 5, "route:api_class": 15, "route:writePotentials": 15, "route:potable": 25,
+REQUIRED = {"special:rows_over_1000": 2, "defaults:cutoff_dr_given": 3, "special:int_plateau": 4, "special:root_on_grid": 8, "special:decay_tail": 8, "special:growth": 4, "single_row_table": 2, "repeated_pair_in_list": 5, "route:api_class": 15, "route:writePotentials": 15, "route:potable": 25,
             "blocks>=2": 20, "force:numeric_fallback": 10, "reversed_labels": 5, "rewrite:2_writes": 2, "defaults:nr_given": 1, "defaults:cutoff_given": 1, "defaults:none_given": 1}
 FMT = ("f", 8)
 
@@ -63,9 +63,30 @@ def _case(draw, nr_max, min_pots=1, max_pots=4, defaults=False, route=None, repe
             cutoff = 10.0
         if given in ("cutoff", "none"):
             nr = 1001
+        if given == "cutoff_dr":
+            # the table's extent given as cutoff and step: "cutoff gives the maximum separation to be tabulated" whether or
+            # not it is a whole multiple of dr (the step then adapts: dr = cutoff/(nr-1))
+            step = draw(st.sampled_from([0.01, 0.05, 0.125, 0.2]))
+            k = draw(st.integers(5, 60))
+            frac = draw(st.sampled_from([0, 0, 0.3, 0.5, 0.7]))
+            cutoff = round((k + frac) * step, 6)
+            nr = k + 1
+            m["dr_given"] = repr(step)
+            m["dr_fraction"] = frac
         m["given"] = given
     m.update({"cutoff": cutoff, "nr": nr, "route": route,
               "container": draw(st.sampled_from(["list", "list", "tuple", "iterator", "generator"]))})
+    return m
+
+
+@st.composite
+def _rows_over_1000(draw):
+    """blocks of more than a thousand rows (the default potable table has exactly 1000): what is assembled in batches,
+    buffered or flushed by size shows only beyond"""
+    route = draw(st.sampled_from(["api_class", "writePotentials", "potable", "main"]))
+    m = draw(gen.pair_model(2, 0, max_tables=0, pycallables=False, min_pots=1, max_customs=0))
+    m.update({"cutoff": draw(st.sampled_from([6.5, 10.0, 12.0])), "nr": draw(st.sampled_from([1002, 1500, 2001, 2500, 3002])), "route": route,
+              "container": "list", "special": "rows_over_1000"})
     return m
 
 
@@ -102,8 +123,9 @@ def strata(tier):
                 ("int_plateau", _special("int_plateau"), 0.6), ("single_row", _case(2, 1, 3), 0.3)] + [
             ("repeated_pair:" + r, _case(60, 2, 4, route=r, repeated=True), 0.6) for r in ("api_class", "writePotentials")] + [
             ("route:writePotentials", _case(60, 1, 4, route="writePotentials"), 1)] + [
-            ("defaults:" + g, _case(60, 1, 2, g), 0.4) for g in ("nr", "cutoff", "none")]
-    return [("defaults:" + g, _case(60, 1, 2, g), 0.4) for g in ("nr", "cutoff", "none")] + [("rewrite", _rewrite(), 1), ("one", _case(60, 1, 1), 3), ("several", _case(60, 2, 4), 3), ("medium", _case(400), 3),
+            ("defaults:" + g, _case(60, 1, 2, g), 0.4) for g in ("nr", "cutoff", "none", "cutoff_dr")] + [
+            ("rows_over_1000", _rows_over_1000(), 0.5)]
+    return [("defaults:" + g, _case(60, 1, 2, g), 0.4) for g in ("nr", "cutoff", "none", "cutoff_dr")] + [("rows_over_1000", _rows_over_1000(), 0.5)] + [("rewrite", _rewrite(), 1), ("one", _case(60, 1, 1), 3), ("several", _case(60, 2, 4), 3), ("medium", _case(400), 3),
             ("large", _case(5000, 1, 2), 1), ("root_on_grid", _special("root_on_grid"), 1),
             ("decay_tail", _special("decay_tail"), 1), ("growth", _special("growth"), 0.5), ("int_plateau", _special("int_plateau"), 0.6), ("single_row", _case(2, 1, 3), 0.3)] + [
         ("repeated_pair:" + r, _case(60, 2, 4, route=r, repeated=True), 0.6) for r in ("api_class", "writePotentials")] + [
@@ -122,6 +144,8 @@ class CliFailed(Exception):
 
 def _grid(case):
     g = case.get("given", "both")
+    if g == "cutoff_dr":
+        return {"cutoff": case["cutoff"], "dr": case["dr_given"]}
     return dict((k, case[k]) for k in ("cutoff", "nr") if g in ("both", k))
 
 
@@ -325,6 +349,14 @@ def check_case(case):
                        "%r\n%s" % (e, pairtab.potable_text(case, "LAMMPS", {"cutoff": case["cutoff"], "nr": case["nr"]})))],
                 "cls": cls, "nt": False}
     ctx = txt or pairtab.potable_text(case, "LAMMPS", {"cutoff": case["cutoff"], "nr": case["nr"]})
+    if case.get("given") == "cutoff_dr" and case.get("dr_fraction"):
+        # cutoff is no whole multiple of dr: the row count may be rounded either way, the end point is the cutoff
+        try:
+            n_file = parsers.lammps_table(out)[0]["N"]
+            if n_file + 1 in (case["nr"], case["nr"] + 1):
+                case = dict(case, nr=n_file + 1)
+        except (parsers.FormatError, IndexError):
+            pass
     try:
         v, stats = verify_text(case, out, rk, ctx)
     except DomainError:
